@@ -338,7 +338,8 @@ Definition show_build_info (i : build_info) : str :=
   flat_map (fun nt => " "%char :: hex (fst nt) ++
                       match snd nt with
                       | inl t => S_ " ok " ++ show_list (t_cmd t) ++ S_ " " ++
-                                 show_list (flat_map (fun e : export_spec => [fst e; odflt [] (snd e)]) (odflt [] (t_export t)))
+                                 show_list (flat_map (fun e : export_spec => [fst e; odflt [] (snd e)]) (odflt [] (t_export t))) ++
+                                 S_ " " ++ match t_workdir t with Some w => hex w | None => S_ "-" end
                       | inr _ => S_ " err" end)
            (sort_by_key (bi_tasks i)).
 
